@@ -197,7 +197,7 @@ QUICK_SERVE = {'C01': ['serve_full_get_enone_m0_h0_absent_hd',
  'C15': ['serve_full_head_estrong_m1_h2_absent',
          'serve_unsat_head_enone_m0_h0_absent',
          'serve_single_head_enone_m0_h0_absent',
-         'serve_multi_head_estrong_m0_h0_absent_r2_req',
+         'serve_multi_head_estrong_m1_h1_absent_r2_rev',
          'serve_single_head_estrong_m1_h1_other',
          'serve_multi_head_estrong_m0_h1_other_r2_req']}
 
